@@ -46,12 +46,26 @@ desc: lz_encode: whenever the LZ-based encoder returns something other than LZMA
 assume: coder->lz.code (lzma2_encode / lzma_encode) is a stub with nondeterministic result
 */
 
+/*@obligation
+id: C01.lz.init
+props: C01 C10 C04
+entry: h_lz_init
+unwind: 20
+restrict: lz_encoder_init.function_pointer_call.1/stub_skip
+fn: lz_encoder_init
+sentinels: 3
+expect: 20
+desc: lz_encoder_init on a small concrete window (16 bytes) with an arbitrary preset dictionary of 0..24 bytes: positions are reset (read_pos, read_ahead, read_limit, pending, cyclic_pos = 0, offset = cyclic_size); when the preset dictionary is larger than the window the encoder keeps its TAIL (the last 'size' bytes -- the same bytes the decoder keeps), byte k of the window = byte (preset_size - write_pos + k) of the dictionary; the dictionary is fed through the match finder exactly once (skip(write_pos)) under a flush action so that every byte is usable, and the action is LZMA_RUN afterwards; if the hash or son allocation fails both are released and NULL (a retry starts clean)
+assume: mf->skip is a recording stub; lzma_alloc/lzma_alloc_zero are stubs that fail or hand out static arrays
+*/
+
 #include "verif.h"
 #include "liblzma/common/common.h"
 
 static struct { unsigned frees, skips, codes; uint32_t skip_amount, skip_read_pos; } GW;
-void *lzma_alloc(size_t s, const lzma_allocator *a) { (void)s; (void)a; return NULL; }
-void *lzma_alloc_zero(size_t s, const lzma_allocator *a) { (void)s; (void)a; return NULL; }
+static uint32_t HPOOL[8], SPOOL[8]; static uint8_t g_fail_hash, g_fail_son;
+void *lzma_alloc(size_t s, const lzma_allocator *a) { (void)a; return (g_fail_son || s > sizeof(SPOOL)) ? NULL : SPOOL; }
+void *lzma_alloc_zero(size_t s, const lzma_allocator *a) { (void)a; return (g_fail_hash || s > sizeof(HPOOL)) ? NULL : HPOOL; }
 void lzma_free(void *p, const lzma_allocator *a) { (void)a; if (p != NULL) ++GW.frees; }
 void lzma_next_end(lzma_next_coder *n, const lzma_allocator *a) { (void)a; *n = LZMA_NEXT_CODER_INIT; }
 lzma_ret lzma_next_filter_init(lzma_next_coder *n, const lzma_allocator *a, const lzma_filter_info *f) { (void)n; (void)a; (void)f; return LZMA_OK; }
@@ -85,6 +99,7 @@ struct in {
 	uint32_t k;
 	uint8_t inb[8]; size_t in_size; uint32_t action;
 	uint32_t code_ret;
+	uint8_t preset[24]; uint32_t preset_size; uint8_t has_hash2, fail_hash, fail_son, preset_null;
 };
 static struct in IN VERIF_IN_INIT;
 
@@ -225,5 +240,41 @@ void h_lz_encode(void)
 	} else {
 		ASSERT(r == LZMA_OK && IN.in_size == 0 && IN.action == LZMA_RUN, "nothing to do without input in LZMA_RUN");
 		REACH(lzenc_idle);
+	}
+}
+
+/* ---------------- lz_encoder_init ---------------- */
+void h_lz_init(void)
+{
+	HAVOC(IN, struct in);
+	ASSUME(IN.preset_size <= 24 && IN.has_hash2 <= 1 && IN.fail_hash <= 1 && IN.fail_son <= 1 && IN.preset_null <= 1 && IN.k < 16);
+	static uint8_t W16[16 + 16];
+	lzma_mf mf; memset(&mf, 0, sizeof(mf)); memset(&GW, 0, sizeof(GW));
+	mf.buffer = W16; mf.size = 16; mf.cyclic_size = 9; mf.hash_count = 4; mf.sons_count = 4; mf.skip = &stub_skip;
+	mf.read_pos = 5; mf.read_ahead = 1; mf.read_limit = 7; mf.write_pos = 9; mf.pending = 2; mf.cyclic_pos = 3; mf.action = LZMA_FINISH;
+	static uint32_t OLDH[4], OLDS[4];
+	if (IN.has_hash2) { mf.hash = OLDH; mf.son = OLDS; OLDH[1] = 77; }
+	g_fail_hash = IN.fail_hash; g_fail_son = IN.fail_son;
+	lzma_lz_options o; memset(&o, 0, sizeof(o));
+	o.preset_dict = IN.preset_null ? NULL : IN.preset; o.preset_dict_size = IN.preset_size;
+	const bool err = lz_encoder_init(&mf, NULL, &o);
+	if (!IN.has_hash2 && (IN.fail_hash || IN.fail_son)) {
+		ASSERT(err && mf.hash == NULL && mf.son == NULL, "hash/son allocation failed: both released, pointers cleared");
+		REACH(lzinit_alloc_failed);
+		return;
+	}
+	ASSERT(!err, "initialised");
+	ASSERT(mf.read_ahead == 0 && mf.read_limit == 0 && mf.pending == 0 && mf.cyclic_pos == 0 && mf.offset == mf.cyclic_size && mf.action == LZMA_RUN, "positions reset; action LZMA_RUN");
+	ASSERT(mf.hash[1] == 0, "hash table cleared");
+	const bool use = !IN.preset_null && IN.preset_size > 0;
+	const uint32_t wp = use ? (IN.preset_size < 16 ? IN.preset_size : 16) : 0;
+	ASSERT(mf.write_pos == wp, "window holds min(preset size, window size) bytes");
+	if (use) {
+		ASSERT(GW.skips == 1 && GW.skip_amount == wp && GW.skip_read_pos == 0 && mf.read_pos == wp, "preset dictionary fed through the match finder once, from position 0");
+		if (IN.k < wp) ASSERT(W16[IN.k] == IN.preset[IN.preset_size - wp + IN.k], "the window holds the TAIL of the preset dictionary (the bytes the decoder keeps too)");
+		REACH_IF(IN.preset_size > 16, lzinit_preset_tail);
+	} else {
+		ASSERT(GW.skips == 0 && mf.read_pos == 0, "no preset dictionary");
+		REACH(lzinit_plain);
 	}
 }
